@@ -148,8 +148,6 @@ Qed.
 (* ---------- which ids the new pc awaits: fresh ones, or ones the old pc awaited that were neither delivered nor cancelled ---------- *)
 Definition shape_pc (sh : lres) : option (pc * list nat) :=
   match sh with LKeep p' _ _ cn | LResolve _ p' _ cn => Some (p', cn) | LSelect _ => None end.
-Definition shape_new (sh : lres) : list rpc :=
-  match sh with LKeep _ new _ _ | LResolve _ _ new _ => new | LSelect _ => [] end.
 
 Lemma wait_deliver_awaits base w cid y w' new :
   wait_deliver base w cid y = Some (WGo w' new) ->
@@ -728,3 +726,68 @@ Proof.
     destruct (nth_error (calls s) k) as [cl0|]; [|discriminate]. inversion Hk; subst cl. cbn in Hl.
     revert Hl. apply not_live_final. destruct (c_st cl0); auto.
 Qed.
+
+(* ---------- reusable pieces ---------- *)
+(* an awaited call always finds its owner *)
+Lemma find_owner_awaited c cid y sel e base hgt tnow na : forall l n j z,
+  nth_error l j = Some z -> In cid (awaits (l_pc z)) ->
+  find_owner c n l cid y sel e base hgt tnow na <> None.
+Proof.
+  induction l as [|w r IH]; intros n j z Hj Hin; [destruct j; discriminate|].
+  unfold find_owner; fold find_owner. destruct (lc_deliver c (l_info w) base hgt tnow (l_pc w) cid y sel e na) eqn:E; [discriminate|].
+  destruct j as [|j]; cbn in Hj; [|exact (IH _ j z Hj Hin)].
+  inversion Hj; subst w. exfalso. rewrite lc_deliver_shape in E.
+  destruct (lc_shape c (l_info z) base tnow (l_pc z) cid y) eqn:Es; [discriminate|].
+  clear -Hin Es. destruct (l_pc z); cbn [awaits] in Hin; unfold lc_shape in Es;
+    try (destruct Hin as [<-|[]]; rewrite Nat.eqb_refl in Es; cbn in Es; discriminate); try (destruct Hin; fail).
+  destruct w as [k0|k0 l|aw]; cbn [awaits] in Hin.
+  - destruct Hin as [<-|[]]. cbn in Es. rewrite Nat.eqb_refl in Es. cbn in Es. destruct y; discriminate.
+  - destruct Hin as [<-|[]]. cbn in Es. rewrite Nat.eqb_refl in Es. cbn in Es. destruct y as [| | | |[|? ?]| | | |]; try discriminate; destruct l; try discriminate; destruct k; discriminate.
+  - cbn in Es. assert (X : existsb (fun x => Nat.eqb (snd x) cid) aw = true).
+    { apply in_map_iff in Hin as ((pid & c0) & Hc & Hi). apply existsb_exists. exists (pid, c0). split; [exact Hi|]. cbn in *. subst. apply Nat.eqb_refl. }
+    rewrite X in Es. cbn in Es. destruct y; try (destruct k; discriminate). destruct (filter _ aw); [destruct k; discriminate|discriminate].
+Qed.
+
+(* the first HTLC of a set: a new lifecycle is spawned with its state fetch *)
+Definition spawn (s : sys) (h : htlc) (e1 : entry) : sys :=
+  {| nd := nd s;
+     pl := {| entry_ := Some e1;
+              lcs := lcs (pl s) ++ [{| l_pc := PFetch (length (calls s)); l_info := {| li_blob := blob h; li_deliver := deliver h; li_inv_amount := inv_amount h |} |}];
+              next_att := next_att (pl s) |};
+     calls := calls s ++ mk_calls [QListState]; now := now s; height := height s |}.
+
+Lemma spawn_lcs s h e1 i x :
+  nth_error (lcs (pl (spawn s h e1))) i = Some x ->
+  (nth_error (lcs (pl s)) i = Some x /\ (i < length (lcs (pl s)))%nat) \/ (i = length (lcs (pl s)) /\ l_pc x = PFetch (length (calls s))).
+Proof.
+  cbn [spawn pl lcs]. intros H0. destruct (Nat.lt_ge_cases i (length (lcs (pl s)))) as [Hlt|Hge].
+  - rewrite nth_error_app1 in H0 by exact Hlt. auto.
+  - rewrite nth_error_app2 in H0 by exact Hge. destruct (i - length (lcs (pl s)))%nat as [|k0] eqn:Ek; cbn in H0; [|destruct k0; discriminate].
+    inversion H0; subst. right. split; [lia|reflexivity].
+Qed.
+
+Lemma spawn_InvC c s h e1 : InvC c s -> InvC c (spawn s h e1).
+Proof.
+  intros [Ht Hd]. constructor.
+  - intros i x Hx. destruct (spawn_lcs s h e1 i x Hx) as [(Hx' & _)|(_ & Hp)]; cbn [spawn calls].
+    + apply (pc_calls_ok_mono c _ (calls s)); [|exact (Ht i x Hx')].
+      intros k _ q (st & Hq & Hl). exists st. split; [apply nth_app_l; exact Hq|exact Hl].
+    + rewrite Hp. cbn [pc_calls_ok]. apply has_call_new0.
+  - intros i j x y k Hne Hx Hy Hkx Hky.
+    destruct (spawn_lcs s h e1 i x Hx) as [(Hx' & Hi)|(Hi & Hpx)]; destruct (spawn_lcs s h e1 j y Hy) as [(Hy' & Hj)|(Hj & Hpy)].
+    + exact (Hd i j x y k Hne Hx' Hy' Hkx Hky).
+    + rewrite Hpy in Hky. cbn in Hky. destruct Hky as [<-|[]]. pose proof (pc_calls_ok_awaits_lt c _ _ _ (Ht i x Hx') _ Hkx). lia.
+    + rewrite Hpx in Hkx. cbn in Hkx. destruct Hkx as [<-|[]]. pose proof (pc_calls_ok_awaits_lt c _ _ _ (Ht j y Hy') _ Hky). lia.
+    + lia.
+Qed.
+
+Lemma spawn_InvO s h e1 : InvO s -> InvO (spawn s h e1).
+Proof.
+  intros HO k cl Hk Hl. cbn [spawn calls pl lcs] in *. destruct (Nat.lt_ge_cases k (length (calls s))) as [Hlt|Hge].
+  - rewrite nth_error_app1 in Hk by exact Hlt. destruct (HO k cl Hk Hl) as (i & x & Hx & Hin). exists i, x. split; [apply nth_app_l; exact Hx|exact Hin].
+  - rewrite nth_error_app2 in Hk by exact Hge. destruct (k - length (calls s))%nat as [|k0] eqn:Ek; cbn in Hk; [|destruct k0; discriminate].
+    eexists (length (lcs (pl s))), _. split; [rewrite nth_error_app2 by lia; rewrite Nat.sub_diag; reflexivity|]. cbn. left. lia.
+Qed.
+
+Lemma spawn_InvU s h e1 : InvU s -> entry_ (pl s) = None -> InvU (spawn s h e1).
+Proof. unfold InvU. intros H E. rewrite E in H. cbn [spawn pl entry_ lcs]. rewrite n_att_app, H. reflexivity. Qed.
